@@ -871,6 +871,11 @@ func runC09(c *ctx) {
 			c09options(c)
 			return
 		}
+		if len(f) >= 2 && f[0] == "c09multi" {
+			seed, _ := strconv.ParseUint(f[1], 10, 64)
+			c09multis(c, []c09multi{genC09multi(seed)})
+			return
+		}
 		if len(f) >= 2 && f[0] == "c09hist" {
 			seed, _ := strconv.ParseUint(f[1], 10, 64)
 			c09histories(c, []c09hist{genC09hist(seed)})
@@ -957,6 +962,14 @@ func runC09(c *ctx) {
 		hs = append(hs, genC09hist(c.rng.U64()))
 	}
 	c09histories(c, hs)
+	var ms []c09multi
+	for v := 0; v < 6; v++ {
+		ms = append(ms, genC09multiWitness(v))
+	}
+	for i := 0; i < c.n(90, 2500); i++ {
+		ms = append(ms, genC09multi(c.rng.U64()|8))
+	}
+	c09multis(c, ms)
 	if w := res.Distribution["window-probe:total"]; w > 0 {
 		res.Note("search-window probe (candidate finding C09-W1): one-line hello longer than the search depth + delimiter + LF in ONE read: Open timed out in %d of %d probes (the property's table expected %d successes / %d NETCONF errors); the model of the code predicts the timeout in %d",
 			res.Distribution["window-probe:impl-timeout"], w, res.Distribution["window-probe:want-ok"], res.Distribution["window-probe:want-netconf"], res.Distribution["window-probe:model-timeout"])
